@@ -517,6 +517,9 @@ class Rig(object):
             self.node(c["s"]).reparentChildren(self.node(c["c"]))
         elif op == "clone":
             self.node(c["s"]).cloneNode()
+        elif op == "attrs":
+            from collections import OrderedDict
+            self.node(c["s"]).attributes = OrderedDict((attr_key(a), dec(a["v"])) for a in c["a"])
         elif op == "setattr":
             self.node(c["s"]).attributes[dec(c["a"][0]["q"])] = dec(c["a"][0]["v"])
         else:
@@ -572,8 +575,13 @@ def replay_behaviour(rec, kind):
         n = T.next - 1
         got = {"rows": [T.row(v) for v in range(1, n + 1)], "ats": [T.attrs(v) for v in range(1, n + 1)], "exc": exc,
                "log": [slim(e) for e in T.events]}
-    want = {"rows": exp["rows"], "ats": exp["ats"], "exc": exp["exc"], "log": [slim(e) for e in exp["log"]]}
-    for f in ("exc", "log", "rows", "ats"):
+        try:
+            doc = T.real(1)
+            got["abs"] = treeproj.from_etree_fragment(doc) if kind == "etree" else treeproj.from_dom_fragment(doc)
+        except Exception as e:
+            got["abs"] = repr(e)
+    want = {"rows": exp["rows"], "ats": exp["ats"], "exc": exp["exc"], "log": [slim(e) for e in exp["log"]], "abs": exp["abs"]}
+    for f in ("exc", "log", "rows", "ats", "abs"):
         if got[f] != want[f]:
             return {"field": f, "expected": want[f], "got": got[f]}
     return None
